@@ -770,9 +770,9 @@ fn deep_strategy(max_gates: usize) -> impl Strategy<Value = DeepCase> {
 }
 
 fn run(ctx: &Ctx) {
-    let n = ctx.share(ctx.tier.pick(1_600_000, 16_000_000));
+    let n = ctx.share(ctx.tier.pick(1_600_000, 48_000_000));
     ctx.run_cases("renumber", n, case_strategy(), check);
-    let n = ctx.share(ctx.tier.pick(160, 1_600));
+    let n = ctx.share(ctx.tier.pick(160, 4_800));
     let max = ctx.tier.pick(200_000, 1_000_000);
     ctx.run_cases("renumber-deep", n, deep_strategy(max), check_deep);
 }
